@@ -41,12 +41,18 @@ def r1_who_may_write(ctx) -> None:
             inside = mn == BASE and owner == "Hugr"
             aliases: dict[str, str] = {}
             for n in ast.walk(fn):
+                tgt, v = None, None
                 if isinstance(n, ast.Assign) and len(n.targets) == 1 and isinstance(n.targets[0], ast.Name):
-                    v = n.value
+                    tgt, v = n.targets[0].id, n.value
+                elif isinstance(n, ast.NamedExpr) and isinstance(n.target, ast.Name):
+                    tgt, v = n.target.id, n.value
+                elif isinstance(n, ast.AnnAssign) and isinstance(n.target, ast.Name) and n.value is not None:
+                    tgt, v = n.target.id, n.value
+                if tgt is not None:
                     if isinstance(v, ast.Attribute) and v.attr in STATE | {"children"}:
-                        aliases[n.targets[0].id] = v.attr
+                        aliases[tgt] = v.attr
                     if isinstance(v, ast.Call) and call_name(v) == "children":
-                        aliases[n.targets[0].id] = "children"
+                        aliases[tgt] = "children"
 
             def state_of(e):
                 if isinstance(e, ast.Attribute) and e.attr in STATE | NODEDATA_STATE and e.attr != "parent":
@@ -136,11 +142,6 @@ def r2_pairing(ctx, hugr, file) -> None:
     ok = len(fresh) == 1 and len(app) == 1 and app[0] in g.reachable(fresh[0]) and pops and app[0] not in g.reachable(pops[0]) and fresh[0] not in g.reachable(pops[0])
     ctx.check(bool(ok), "C04.R2", "Hugr._add_node: fresh index = table length", file, an.lineno,
               "without a free index the new node gets index len(_nodes) and its data is appended (never both reuse and append)", an)
-    rep = [s for s in ast.walk(an) if isinstance(s, ast.Assign) and isinstance(s.value, ast.Call) and u(s.value.func) == "replace" and u(s.targets[0]) == "node"]
-    ok = len(rep) == 1 and kwarg(rep[0].value, "_num_out_ports") is not None and u(kwarg(rep[0].value, "_num_out_ports")) == "num_outs" \
-        and kwarg(rep[0].value, "_metadata") is not None and u(kwarg(rep[0].value, "_metadata")) == "node_data.metadata"
-    ctx.check(ok, "C04.R2", "Hugr._add_node: handle refreshed", file, an.lineno,
-              "the returned handle (possibly a recycled one) must carry the new node's metadata and requested output count", rep[0] if rep else an)
     ch = [s for s in ast.walk(an) if isinstance(s, ast.Expr) and "children.append(node)" in u(s)]
     ok = len(ch) == 1
     if ok:
@@ -171,6 +172,8 @@ def _succ_towards(g, t, r):
 
 def _raw_link_deletes(fn):
     out = []
+    if fn is None:
+        return out
     for c in calls_in(fn):
         if isinstance(c.func, ast.Attribute) and c.func.attr in ("delete_left", "delete_right", "__delitem__", "pop") and "_links" in u(c.func.value):
             out.append(c)
@@ -181,17 +184,32 @@ def _raw_link_deletes(fn):
 
 
 def is_gap_closing(fn) -> bool:
-    """the function removes a link and then shifts the later sub-offsets of both endpoint ports down"""
-    loops = [n for n in ast.walk(fn) if isinstance(n, ast.While)]
-    seen = set()
-    for lp in loops:
-        t = u(lp.test)
+    """the function removes a link and then, on EVERY path to its exit, shifts the later sub-offsets of both endpoint
+    ports down (a shifting loop over the forward map and one over the backward map are both passed through)"""
+    g = CFG(real_body(fn))
+    heads = {}
+    for n, st in g.stmt.items():
+        if g.kind.get(n) != "loop" or st is None:
+            continue
+        t = u(st)
         for d in ("fwd", "bck"):
             if f"in self._links.{d}" in t:
-                body_calls = {call_name(c) for c in calls_in(lp)}
+                # the loop body re-keys: delete + insert + next_sub_offset
+                body = [m for m in g.reachable(n) if m != n]
+                lp = [w for w in ast.walk(fn) if isinstance(w, ast.While) and w.test is st]
+                if not lp:
+                    continue
+                body_calls = {call_name(c) for c in calls_in(lp[0])}
                 if body_calls & {"delete_left", "delete_right"} and body_calls & {"insert_left", "insert_right"} and "next_sub_offset" in body_calls:
-                    seen.add(d)
-    return seen == {"fwd", "bck"}
+                    heads[d] = n
+    if set(heads) != {"fwd", "bck"}:
+        return False
+    dels = [n for n, st in g.stmt.items() if st is not None and g.kind.get(n) == "stmt" and _raw_link_deletes(st) and not any(n in g.reachable(h) and h in g.reachable(n) for h in heads.values())]
+    if not dels:
+        return False
+    first = dels[0]
+    # no path from the removal to the exit that skips either shifting loop
+    return all(EXIT not in g.reachable(first, avoid={h}) for h in heads.values())
 
 
 def r3_dense_suboffsets(ctx, hugr, file) -> None:
@@ -366,25 +384,7 @@ def r6_r7_tables(ctx, hugr, file) -> None:
         ok = (call_name(ins[0]) == "insert_left" and a == [ws, wd]) or (call_name(ins[0]) == "insert_right" and a == [wd, ws])
     ctx.check(ok, "C04.R7", "Hugr.add_link: new link at the first free sub-offset of both ports", file, al.lineno,
               "add_link must insert (first unused sub-port of src) -> (first unused sub-port of dst); anything else overwrites an existing link or leaves a gap", al)
-    ao = hugr.methods.get("add_order_link")
-    if ao is None:
-        ctx.broken("anchor vanished: Hugr.add_order_link")
-    env = Env(hugr.module, hugr, {"self": sym("self"), "src": sym("src"), "dst": sym("dst")}, {})
-    ok = False
-    links = [c for c in calls_in(ao, "add_link")]
-    for st in real_body(ao):
-        if isinstance(st, ast.Assign) and isinstance(st.targets[0], ast.Name):
-            env.vars[st.targets[0].id] = _ev_plain(nf, st.value, env)
-    if len(links) == 1:
-        a = [_ev_plain(nf, x, env) for x in links[0].args]
-        want = [_ev_plain(nf, ast.parse("src.out(-1)", mode="eval").body, env), _ev_plain(nf, ast.parse("dst.inp(-1)", mode="eval").body, env)]
-        guards = [n for n in ast.walk(ao) if isinstance(n, ast.If) and links[0] in list(ast.walk(n))]
-        g_ok = False
-        if guards:
-            t = _ev_plain(nf, guards[0].test, env)
-            g_ok = t == ("op", "Not", (("call", ".has_link", (sym("self"), want[0], want[1]), ()),))
-        ok = a == want and g_ok
-    ctx.check(ok, "C04.R6", "Hugr.add_order_link", file, ao.lineno, "an order link joins src.out(-1) to dst.inp(-1) and is added only if not yet present", ao)
+    order_link_rule(ctx, "C04.R6")
     # direction tables
     for name in ("_unused_sub_offset", "linked_ports"):
         m = hugr.methods.get(name)
@@ -412,6 +412,32 @@ def r6_r7_tables(ctx, hugr, file) -> None:
     f = nd.find_field("children")
     ctx.check(f is not None and f.default_factory is not None and u(f.default_factory) == "list", "C04.R7", "NodeData.children: fresh list per node", nd.module.path,
               f.node.lineno if f else 1, "each node needs its own child list", f.node if f else None)
+
+
+def order_link_rule(ctx, rule: str) -> None:
+    from ..nf import NF, Env, sym
+    hugr = ctx.program.cls(f"{BASE}.Hugr")
+    file = hugr.module.path
+    nf = NF(ctx.program)
+    ao = hugr.methods.get("add_order_link")
+    if ao is None:
+        ctx.broken("anchor vanished: Hugr.add_order_link")
+    env = Env(hugr.module, hugr, {"self": sym("self"), "src": sym("src"), "dst": sym("dst")}, {})
+    ok = False
+    links = [c for c in calls_in(ao, "add_link")]
+    for st in real_body(ao):
+        if isinstance(st, ast.Assign) and isinstance(st.targets[0], ast.Name):
+            env.vars[st.targets[0].id] = _ev_plain(nf, st.value, env)
+    if len(links) == 1:
+        a = [_ev_plain(nf, x, env) for x in links[0].args]
+        want = [_ev_plain(nf, ast.parse("src.out(-1)", mode="eval").body, env), _ev_plain(nf, ast.parse("dst.inp(-1)", mode="eval").body, env)]
+        guards = [n for n in ast.walk(ao) if isinstance(n, ast.If) and links[0] in list(ast.walk(n))]
+        g_ok = False
+        if guards:
+            t = _ev_plain(nf, guards[0].test, env)
+            g_ok = t == ("op", "Not", (("call", ".has_link", (sym("self"), want[0], want[1]), ()),))
+        ok = a == want and g_ok
+    ctx.check(ok, rule, "Hugr.add_order_link", file, ao.lineno, "an order link joins src.out(-1) to dst.inp(-1) and is added only if not yet present", ao)
 
 
 def _ev_plain(nf, e, env):
@@ -452,7 +478,7 @@ def _expr_no_inline(nf, cls, expr, m):
 
 def run(ctx) -> None:
     ctx.rule("C04.R1", "node table, free list, link map, child lists and port counters are written only by methods of Hugr (aliases and children() results followed)", floor=3)
-    ctx.rule("C04.R2", "slot/free-list/children pairing in delete_node and _add_node; node count; free slots skipped / rejected", floor=12)
+    ctx.rule("C04.R2", "slot/free-list/children pairing in delete_node and _add_node; node count; free slots skipped / rejected", floor=9)
     ctx.rule("C04.R3", "dense sub-offsets: every removal from the link map closes the gap on both ports (single helper); delete_link addresses exactly one link", floor=3)
     ctx.rule("C04.R4", "delete_node removes every link of every port incl. the order port and all sub-offsets", floor=2)
     ctx.rule("C04.R5", "query methods are pure (effect analysis, transitive over self calls)", floor=25)
@@ -466,6 +492,13 @@ def run(ctx) -> None:
     r4_deletion_complete(ctx, hugr, file)
     r5_pure_queries(ctx, hugr, file)
     r6_r7_tables(ctx, hugr, file)
+    # insert_hugr is one of the history operations: its code-shape rules are shared with C08
+    from .c08 import insert_core
+    ctx.rule("C04.R8", "insert_hugr copies every node (op, mapped parent, count, metadata) and every link through the mapping, parents first by hierarchy, source untouched (shared with C08)", floor=10)
+    insert_core(ctx, R1="C04.R8", R2="C04.R8", R3="C04.R8", R4="C04.R8")
+    from .. import lints
+    lints.arm(ctx)
+
 
 
 # ---------------------------------------------------------------------------------------
@@ -482,7 +515,6 @@ MUTANTS = [
     dict(name="reuse-without-store", file=B, expect="C04.R2", old="            node = self._free_nodes.pop()\n            self._nodes[node.idx] = node_data", new="            node = self._free_nodes.pop()\n            self._nodes.append(node_data)"),
     dict(name="fresh-index-off-by-one", file=B, expect="C04.R2", old="            node = Node(len(self._nodes), {})", new="            node = Node(len(self._nodes) + 1, {})"),
     dict(name="child-not-registered", file=B, expect="C04.R2", old="        if parent:\n            self[parent].children.append(node)\n", new=""),
-    dict(name="stale-handle-metadata", file=B, expect="C04.R2", old="        node = replace(node, _num_out_ports=num_outs, _metadata=node_data.metadata)", new="        node = replace(node, _num_out_ports=num_outs)"),
     dict(name="count-ignores-free", file=B, expect=["C04.R7", "C04.R2"], old="        return len(self._nodes) - len(self._free_nodes)", new="        return len(self._nodes)"),
     dict(name="raw-delete-in-delete-link", file=B, expect="C04.R3", old="        self._remove_sub_link(_SubPort(src, sub_offset))", new="        self._links.delete_left(_SubPort(src, sub_offset))"),
     dict(name="helper-shifts-one-side", file=B, expect="C04.R3",
